@@ -115,7 +115,18 @@ type vC02NCase struct {
 	// connection with each other; B trusts everybody and is trusted by nobody. Operations are issued at A and C only
 	// (step.R even: A, odd: C); whatever one of them publishes can reach the other only through B's forwarding.
 	Line  bool        `json:"line,omitempty"`
-	Steps []vC02NStep `json:"steps"`
+	// RelayDistrusts (line only): B lists only A in trusted_peers, so B's validator rejects what C signs and gossipsub does
+	// not forward it: C's updates never reach A (A's do reach C)
+	RelayDistrusts bool        `json:"relay_distrusts,omitempty"`
+	Steps          []vC02NStep `json:"steps"`
+}
+
+type vc02NOp struct {
+	Pin  bool `json:"pin"`
+	C    int  `json:"c"`
+	R    int  `json:"r"`    // value rank
+	Made int  `json:"made"` // id of the block this operation published in the delta table; 0: nothing / not in the table
+	sid  string
 }
 
 type vC02NObs struct {
@@ -127,6 +138,13 @@ type vC02NObs struct {
 	Leak   []int          `json:"leak"`   // CIDs pinned only by the untrusted peer that appeared at a trusted peer
 	Heads  []int          `json:"nheads"`
 	NoSync bool           `json:"nosync,omitempty"` // the compared peers did not reach the same heads within the (long) timeout
+	Issuers  [][]int     `json:"issuers"`   // per delta: the peers that published exactly this block (normally one)
+	Parents  [][]int     `json:"parents"`   // per delta (same order as Deltas): ids of the blocks it links to
+	AllTrust [][]int     `json:"all_trust"` // trusted_peers of every peer of the case ([-1] = trust all)
+	Links    [][2]int    `json:"links"`
+	Merged   [][]int     `json:"merged"`    // per compared peer: the deltas it merged, in the order of its datastore write batches
+	Ops      [][]vc02NOp `json:"ops"`       // per compared peer: its own operations
+	Calls    [][]string  `json:"calls"`     // per compared peer: what its PinTracker received
 	Err    string         `json:"err,omitempty"`
 }
 
@@ -198,6 +216,9 @@ func vC02NRun(t *testing.T, c vC02NCase) (obs vC02NObs) {
 	var group []int
 	if c.Line {
 		trustIdx[0], trustIdx[2], trustAll[1] = []int{2}, []int{0}, true
+		if c.RelayDistrusts {
+			trustIdx[1], trustAll[1] = []int{0}, false
+		}
 		edges = [][2]int{{0, 1}, {1, 2}}
 		group = []int{0, 2}
 		gaters[0].setDeny(hosts[2].ID())
@@ -275,7 +296,29 @@ func vC02NRun(t *testing.T, c vC02NCase) (obs vC02NObs) {
 		}
 		return true
 	}
+	issuers := map[string][]int{}   // block (set id) -> every peer whose operation published exactly this block
+	made := map[string]int{}        // block (set id) -> the peer whose operation published it first
+	lastMade := map[int]string{}    // peer -> the last block it published
+	peerOps := make([][]vc02NOp, total)
+	processed := func(i int, sid string) bool { // the block is in i's block store (go-ds-crdt stores a block, then merges it)
+		bc, err := dshelp.DsKeyToCidV1(ds.NewKey(sid), cid.DagProtobuf)
+		if err != nil {
+			return false
+		}
+		ok, err := peers[i].p.cc.ipfs.HasBlock(bc)
+		return err == nil && ok
+	}
 	syncAll := func() bool { // positive expectation: every compared peer ends with the same heads, 25 polls in a row
+		if c.Line && c.RelayDistrusts {
+			// A and C cannot reach the same heads here. Positive expectation: what A published is merged by C (B forwards
+			// it); negative, bounded: what C published does not show at A.
+			ok := true
+			if sid := lastMade[0]; sid != "" {
+				ok = vc02WaitFor(vc02SyncTimeout, func() bool { return processed(2, sid) })
+			}
+			time.Sleep(1500 * time.Millisecond)
+			return ok
+		}
 		stable := 0
 		to := vc02SyncTimeout
 		if obs.NoSync { // already failed once in this case: the verdict is settled, do not wait that long again
@@ -309,6 +352,41 @@ func vC02NRun(t *testing.T, c vC02NCase) (obs vC02NObs) {
 			}
 			writers[r] = true
 			ci := ((s.C % vc02NCids) + vc02NCids) % vc02NCids
+			headsBefore := map[string]bool{}
+			for _, hk := range peers[r].heads(t) {
+				headsBefore[hk] = true
+			}
+			defer0 := func() { // a local write replaces the heads by its block: the new head nobody else made is it
+				op := vc02NOp{Pin: s.Pin, C: ci}
+				if s.Pin {
+					op.R = ranks.of(vc02PinBytes(vc02Pin(ci, s.V)))
+				}
+				for _, hk := range peers[r].heads(t) {
+					if _, other := made[hk]; !other && !headsBefore[hk] {
+						if op.sid != "" {
+							obs.Err = "two new heads after one local write"
+						}
+						op.sid = hk
+					}
+				}
+				if op.sid == "" && s.Pin {
+					// the very block another peer already published (same pin, same parents, same height): one block, two issuers
+					for _, hk := range peers[r].heads(t) {
+						if !headsBefore[hk] {
+							op.sid = hk
+						}
+					}
+					if op.sid != "" {
+						lastMade[r] = op.sid
+						issuers[op.sid] = append(issuers[op.sid], r)
+					}
+				} else if op.sid != "" {
+					made[op.sid] = r
+					lastMade[r] = op.sid
+					issuers[op.sid] = append(issuers[op.sid], r)
+				}
+				peerOps[r] = append(peerOps[r], op)
+			}
 			var err error
 			if s.Pin {
 				err = peers[r].p.cc.LogPin(ctx, vc02Pin(ci, s.V))
@@ -329,6 +407,8 @@ func vC02NRun(t *testing.T, c vC02NCase) (obs vC02NObs) {
 			}
 			if err != nil {
 				obs.Err = "write failed: " + err.Error()
+			} else {
+				defer0()
 			}
 		case "partition":
 			for i := range peers {
@@ -396,8 +476,9 @@ func vC02NRun(t *testing.T, c vC02NCase) (obs vC02NObs) {
 	seen := map[string]bool{}
 	var walk func(np *vc02NetPeer, c cid.Cid) error
 	type dnode struct {
-		d  pb.Delta
-		id string
+		d       pb.Delta
+		id      string
+		parents []string
 	}
 	nodes := map[string]*dnode{}
 	walk = func(np *vc02NetPeer, c cid.Cid) error {
@@ -423,6 +504,7 @@ func vC02NRun(t *testing.T, c vC02NCase) (obs vC02NObs) {
 		nodes[sid] = dn
 		blocks = append(blocks, c)
 		for _, l := range n.Links() {
+			dn.parents = append(dn.parents, dshelp.MultihashToDsKey(l.Cid.Hash()).String())
 			if err := walk(np, l.Cid); err != nil {
 				return err
 			}
@@ -475,7 +557,105 @@ func vC02NRun(t *testing.T, c vC02NCase) (obs vC02NObs) {
 			}
 			e.Rms = append(e.Rms, [2]int{k, idOf[ds.NewKey(el.GetId()).String()]})
 		}
+		if by, ok := made[sid]; ok {
+			e.By = by
+		} else {
+			e.By = 99
+		}
 		obs.Deltas = append(obs.Deltas, e)
+		obs.Issuers = append(obs.Issuers, append([]int{}, issuers[sid]...))
+		ps := []int{}
+		for _, p := range dn.parents {
+			ps = append(ps, idOf[p])
+		}
+		obs.Parents = append(obs.Parents, ps)
+	}
+	for i := 0; i < total; i++ {
+		if trustAll[i] {
+			obs.AllTrust = append(obs.AllTrust, []int{-1})
+		} else {
+			obs.AllTrust = append(obs.AllTrust, append([]int{}, trustIdx[i]...))
+		}
+	}
+	obs.Links = append(obs.Links, edges...)
+	// merge order of a peer from the write batches of its datastore: an element batch names its block in its keys; a
+	// tombstone-only batch is the first not yet merged delta without elements that has exactly these tombstones
+	type tk struct{ k, id int }
+	tombsOfDelta := func(d vc02DeltaObs) map[tk]bool {
+		m := map[tk]bool{}
+		for _, r := range d.Rms {
+			m[tk{r[0], r[1]}] = true
+		}
+		return m
+	}
+	sameTk := func(a, b map[tk]bool) bool {
+		if len(a) != len(b) {
+			return false
+		}
+		for k := range a {
+			if !b[k] {
+				return false
+			}
+		}
+		return true
+	}
+	mergeOrder := func(np *vc02NetPeer, self int) []int {
+		np.p.fds.mu.Lock()
+		bs := append([]vc02BatchRec{}, np.p.fds.batches...)
+		np.p.fds.mu.Unlock()
+		out := []int{}
+		done := map[int]bool{}
+		for i := 0; i < len(bs); i++ {
+			b := bs[i]
+			if b.kind == "elems" {
+				id := 0
+				for _, k := range b.keys {
+					parts := strings.Split(k, "/") // "", ns, s, s, <key>, <block>
+					if len(parts) >= 6 && parts[2] == "s" && parts[3] == "s" {
+						id = idOf["/"+parts[len(parts)-1]]
+					}
+				}
+				if id == 0 {
+					obs.Err = "elements batch of a block that is not in the delta table"
+					return out
+				}
+				if !done[id] {
+					out = append(out, id)
+					done[id] = true
+				}
+				continue
+			}
+			ts := map[tk]bool{}
+			for _, k := range b.keys {
+				parts := strings.Split(k, "/") // "", ns, s, t, <key>, <block>
+				if len(parts) >= 6 {
+					ki, ok := keyIdx["/"+parts[4]]
+					if !ok {
+						ki = 99
+					}
+					ts[tk{ki, idOf["/"+parts[5]]}] = true
+				}
+			}
+			// (H3 writes without batching: a delta has elements or tombstones, never both)
+			// several deltas may carry the same tombstones (two peers unpin at once): the peer's own one was merged first
+			// (had the other arrived before, its own unpin would have found nothing left to tombstone)
+			found := 0
+			for pass := 0; pass < 2 && found == 0; pass++ {
+				for _, d := range obs.Deltas {
+					if len(d.Adds) == 0 && !done[d.ID] && sameTk(tombsOfDelta(d), ts) && (pass == 1 || d.By == self) {
+						found = d.ID
+						break
+					}
+				}
+			}
+			if found == 0 {
+				obs.Err = "tombstone batch that matches no delta"
+				return out
+			}
+			out = append(out, found)
+			done[found] = true
+		}
+		return out
 	}
 	for w := range writers {
 		obs.Writers = append(obs.Writers, w)
@@ -518,35 +698,80 @@ func vC02NRun(t *testing.T, c vC02NCase) (obs vC02NObs) {
 		}
 		sort.Slice(fin, func(a, b int) bool { return fin[a][0] < fin[b][0] })
 		obs.Finals = append(obs.Finals, fin)
+		obs.Merged = append(obs.Merged, mergeOrder(peers[i], i))
+		if obs.Err != "" {
+			return
+		}
+		ops := []vc02NOp{}
+		for _, o := range peerOps[i] {
+			o.Made = idOf[o.sid]
+			ops = append(ops, o)
+		}
+		obs.Ops = append(obs.Ops, ops)
+		calls := []string{}
+		for _, cl := range peers[i].p.tr.snapshot() {
+			if cl.Track {
+				calls = append(calls, fmt.Sprintf("Track %d %d", vc02CidIndex(cl.Pin.Cid), ranks.of(vc02PinBytes(cl.Pin))))
+			} else {
+				calls = append(calls, fmt.Sprintf("Untrack %d", vc02CidIndex(cl.Pin.Cid)))
+			}
+		}
+		obs.Calls = append(obs.Calls, calls)
 	}
 	return
 }
 
 func vC02NTerm(obs vC02NObs) string {
-	var dl []string
-	for _, d := range obs.Deltas {
+	var dl, by, par []string
+	for i, d := range obs.Deltas {
 		dl = append(dl, fmt.Sprintf("mk_delta %d %d %s %s", d.ID, d.Prio, vc02CoqPairs(d.Adds), vc02CoqPairs(d.Rms)))
+		for _, p := range obs.Issuers[i] {
+			by = append(by, fmt.Sprintf("(%d, %d)", d.ID, p))
+		}
+		par = append(par, fmt.Sprintf("(%d, %s)", d.ID, cqListN(obs.Parents[i])))
 	}
-	var fl []string
-	for k, f := range obs.Finals {
+	trust := func(l []int) (bool, []int) {
 		all, tl := false, []int{}
-		for _, j := range obs.Trust[k] {
+		for _, j := range l {
 			if j < 0 {
 				all = true
 			} else {
 				tl = append(tl, j)
 			}
 		}
-		fl = append(fl, fmt.Sprintf("mk_npeer %d %s %s %s", obs.Peers[k], cqBool(all), cqListN(tl), vc02CoqPairs(f)))
+		return all, tl
 	}
-	return fmt.Sprintf("(mk_h3 %s %s %s %s)", cqList(dl), cqList(fl), cqListN(obs.Writers), cqListN(obs.Leak))
+	var at, lk []string
+	for i, l := range obs.AllTrust {
+		all, tl := trust(l)
+		at = append(at, fmt.Sprintf("(%d, (%s, %s))", i, cqBool(all), cqListN(tl)))
+	}
+	for _, e := range obs.Links {
+		lk = append(lk, fmt.Sprintf("(%d, %d)", e[0], e[1]))
+	}
+	var fl []string
+	for k, f := range obs.Finals {
+		all, tl := trust(obs.Trust[k])
+		var ops []string
+		for _, o := range obs.Ops[k] {
+			if o.Pin {
+				ops = append(ops, fmt.Sprintf("(WPin %d %d, %d)", o.C, o.R, o.Made))
+			} else {
+				ops = append(ops, fmt.Sprintf("(WUnpin %d, %d)", o.C, o.Made))
+			}
+		}
+		fl = append(fl, fmt.Sprintf("mk_npeer %d %s %s %s %s %s %s", obs.Peers[k], cqBool(all), cqListN(tl), vc02CoqPairs(f),
+			cqListN(obs.Merged[k]), cqList(ops), cqList(obs.Calls[k])))
+	}
+	return fmt.Sprintf("(mk_h3 %s %s %s %s %s %s %s %s)", cqList(dl), cqList(by), cqList(par), cqList(at), cqList(lk), cqList(fl),
+		cqListN(obs.Writers), cqListN(obs.Leak))
 }
 
 func vC02NGen(r *vRand, i int) vC02NCase {
 	op := func(p, c, v int) vC02NStep { return vC02NStep{T: "op", R: p, Pin: true, C: c, V: v} }
 	un := func(p, c int) vC02NStep { return vC02NStep{T: "op", R: p, C: c} }
 	if i%3 == 1 { // the line A -- B -- C: A and C trust each other only and are connected only through B
-		c := vC02NCase{N: 3, Line: true}
+		c := vC02NCase{N: 3, Line: true, RelayDistrusts: r.chance(35)}
 		hot := r.intn(vc02NCids)
 		rnd := func(n int) {
 			for k := 0; k < n; k++ {
@@ -646,7 +871,9 @@ func TestVerifC02Net(t *testing.T) {
 		if obs.NoSync {
 			out.count("nosync")
 		}
-		if c.Line {
+		if c.Line && c.RelayDistrusts {
+			out.count("line_relay_distrusts_signer")
+		} else if c.Line {
 			out.count("line_relay")
 		} else if c.Untrusted {
 			out.count("untrusted")
